@@ -186,6 +186,8 @@ class Verifier(Executor):
     def run_for(self, s, it, st, k):
         inv, label = self.loop_info(s, st)
         st, tsq, n = self.targets_for(s, it, st)
+        if any(isinstance(sq, EmptySeq) for _, sq in tsq):
+            return self.ex(s.orelse, st, k)          # a literally empty sequence: the body never runs
         if inv is None:
             nn = z3.simplify(n)
             if z3.is_int_value(nn) and nn.as_long() <= 4:
@@ -386,6 +388,8 @@ class Verifier(Executor):
                     spec_env[n] = s.env.get(n, self.entry_env[n])
             pe_old = PureEval(self, self.entry_st, dict(self.entry_env, __entry__=Entry(self.entry_env)), old_st=self.entry_st)
             if kind == "return":
+                if isinstance(v, SClosure) and v.kind in ("emptylist", "emptydict", "emptyset") and c.returns:
+                    v, s = self.materialise(v, s, c.returns)           # `return []`: typed by the contract's `returns`
                 spec_env["result"] = v
                 pe = PureEval(self, s, spec_env, old_st=self.entry_st)
                 for label, e in c.ensures.items():
